@@ -3,6 +3,7 @@ package checks
 import (
 	"fmt"
 	"testing/synctest"
+	"time"
 
 	"verif/sim/core"
 )
@@ -49,6 +50,10 @@ func runC08Gather(c *core.Ctx) {
 	c.Fault("close-during-gathering")
 	if !g.closeAgent() {
 		c.Failf("C08/close-did-not-return", "%s: Close did not return although the simulator kept serving the parked callers", where)
+		return
+	}
+	if g.closeTook > time.Second {
+		c.Failf("C08/close-did-not-return", "%s: Close returned only after %v of simulated time (the simulator served every parked caller at once): it waited for something that only a timeout ends", where, g.closeTook)
 		return
 	}
 	if g.leftAtClose > 0 {
